@@ -28,7 +28,18 @@ for name in sys.argv[2:]:
         elif c == ':' and depth == 0:
             break
         j += 1
-    k = src.index(':= by', j)
+    # end of the statement: first ':=' at bracket depth 0
+    depth = 0
+    k = j + 1
+    while True:
+        c = src[k]
+        if c in '({[⟨':
+            depth += 1
+        elif c in ')}]⟩':
+            depth -= 1
+        elif depth == 0 and src.startswith(':=', k):
+            break
+        k += 1
     stmt = src[j + 1:k].rstrip()
     args = []
     for g in groups:
